@@ -223,7 +223,14 @@ TryNextBlock:
 
 		i := bytes.Index(line, []byte(": "))
 		if i == -1 {
-			goto TryNextBlock
+			// Encode writes "Key: " for an empty value and the trailing
+			// space has been trimmed above.
+			if line[len(line)-1] != ':' {
+				goto TryNextBlock
+			}
+			lastKey = string(line[:len(line)-1])
+			p.Header[lastKey] = ""
+			continue
 		}
 		lastKey = string(line[:i])
 		p.Header[lastKey] = string(line[i+2:])
